@@ -428,14 +428,19 @@ def array_eq(draw, f, n, mm, cfg):
 
 @st.composite
 def for_eq(draw, f, n, cfg):
-    shift = draw(st.sampled_from([0, 0, 1, -1]))
-    lo = 1 + max(0, -shift)
-    hi = n - max(0, shift)
+    shift = draw(st.sampled_from([0, 0, 1, -1, "mirror"]))
+    i = ["var", "i"]
+    if shift == "mirror":
+        # descending subscript n+1-i: a permutation of the whole index range
+        lo, hi = 1, n
+        sub = ["bin", "-", ["int", n + 1], i]
+    else:
+        lo = 1 + max(0, -shift)
+        hi = n - max(0, shift)
+        sub = i if shift == 0 else ["bin", "+" if shift > 0 else "-", i, ["int", abs(shift)]]
     step = None
     if f.stepped and hi - lo >= 2 and draw(st.integers(0, 3)) == 0:
         step = 2
-    i = ["var", "i"]
-    sub = i if shift == 0 else ["bin", "+" if shift > 0 else "-", i, ["int", abs(shift)]]
     body = []
     nb = draw(st.integers(1, 3))
     tgt = draw(st.permutations(["x", "y", "z"]))
@@ -546,6 +551,8 @@ def features(m):
                 for nd in X.walk(b[2]):
                     if nd[0] == "idxe" and any(s[0] == "bin" for s in nd[2:]):
                         out.add("for_shifted")
+                    if nd[0] == "idxe" and any(s[0] == "bin" and s[1] == "-" and s[2][0] == "int" for s in nd[2:]):
+                        out.add("for_mirrored")
         elif q[0] == "if":
             out.add("if_eq")
             if len(q[1]) > 1:
